@@ -49,6 +49,10 @@ from taskiq.receiver import Receiver  # noqa: E402
 CUR_M: "contextvars.ContextVar[int]" = contextvars.ContextVar("verif_cur_m", default=0)
 
 
+# second positional argument of every message: values that are equal / hash-equal across types
+ARG_POOL = [1, True, 1.0, 0, False, 0.0, "1", None, [1], {"k": 1}]
+
+
 class BodyError(Exception):
     """Exception raised by scripted task bodies."""
 
@@ -187,6 +191,8 @@ class RecordingBackend(AsyncResultBackend[Any]):
             cls = "depfail"
         elif isinstance(err, asyncio.CancelledError):
             cls = "cancel"
+        elif isinstance(err, SystemExit):
+            cls = "sysexit"
         else:
             cls = "other:" + type(err).__name__
         flags = 0
@@ -351,10 +357,14 @@ def make_tasks(env: Env, broker: ScriptedBroker, cfg: Dict[str, Any]) -> None:
     by_id = {d["id"]: d for d in deps}
     top = [d["id"] for d in deps if d["parent"] == 0]
 
-    async def body_async(i: int, ctx_tid: int) -> Any:
+    def argflag(i: int, v: Any) -> str:
+        want = ARG_POOL[i % len(ARG_POOL)]
+        return "argok" if (type(v) is type(want) and v == want) else "argbad"
+
+    async def body_async(i: int, ctx_tid: int, v: Any = None) -> Any:
         m = CUR_M.get()
         mc = cfg["msgs"][i - 1]
-        env.rec("start", m=m, x=i, y=ctx_tid)
+        env.rec("start", m=m, x=i, y=ctx_tid, s=argflag(i, v))
         if mc.get("body", "wait") == "instant":
             outcome = mc.get("outcome", "ret")
         else:
@@ -386,41 +396,43 @@ def make_tasks(env: Env, broker: ScriptedBroker, cfg: Dict[str, Any]) -> None:
             exc = NoResultError()
         elif outcome == "cerr":
             exc = asyncio.CancelledError()
+        elif outcome == "sysexit":
+            exc = SystemExit(3)
         else:
             raise AssertionError(outcome)
         env.raised[i] = exc
         raise exc
 
-    def body_sync(i: int, ctx_tid: int) -> Any:
+    def body_sync(i: int, ctx_tid: int, v: Any = None) -> Any:
         m = CUR_M.get()
         mc = cfg["msgs"][i - 1]
-        env.rec("start", m=m, x=i, y=ctx_tid)
+        env.rec("start", m=m, x=i, y=ctx_tid, s=argflag(i, v))
         return finish_body(i, m, mc.get("outcome", "ret"))
 
     # plain tasks (no dependency graph at all)
-    async def ta0(i: int) -> Any:
-        return await body_async(i, 0)
+    async def ta0(i: int, v: Any = None) -> Any:
+        return await body_async(i, 0, v)
 
-    def ts0(i: int) -> Any:
-        return body_sync(i, 0)
+    def ts0(i: int, v: Any = None) -> Any:
+        return body_sync(i, 0, v)
 
     broker.register_task(ta0, task_name="ta0")
     broker.register_task(ts0, task_name="ts0")
 
     # tasks with Context + configured dependencies
-    params = ["i: int", "ctx: Context = TaskiqDepends()"]
+    params = ["i: int", "v: Any = None", "ctx: Context = TaskiqDepends()"]
     for k in top:
         uc = "True" if by_id[k]["cached"] else "False"
         params.append(f"k{k}=TaskiqDepends(FNS[{k}], use_cache={uc})")
     sig = ", ".join(params)
     src = (
         f"async def ta({sig}):\n"
-        f"    return await BODY_A(i, MID(ctx.message.task_id))\n"
+        f"    return await BODY_A(i, MID(ctx.message.task_id), v)\n"
         f"def ts({sig}):\n"
-        f"    return BODY_S(i, MID(ctx.message.task_id))\n"
+        f"    return BODY_S(i, MID(ctx.message.task_id), v)\n"
     )
     glb = {
-        "FNS": fns, "Context": Context, "TaskiqDepends": TaskiqDepends, "BODY_A": body_async,
+        "FNS": fns, "Context": Context, "TaskiqDepends": TaskiqDepends, "BODY_A": body_async, "Any": Any,
         "BODY_S": body_sync, "MID": _mid, "__name__": __name__,
     }
     exec(src, glb)  # noqa: S102
@@ -444,7 +456,7 @@ def build_messages(env: Env, broker: ScriptedBroker, cfg: Dict[str, Any]) -> Non
             name = "no_such_task" if kind == "unknown" else mc.get("task", "ta0")
             tm = TaskiqMessage(
                 task_id=f"m{mc.get('tid') or idx}", task_name=name, labels=labels, labels_types=None,
-                args=[idx], kwargs={},
+                args=[idx, ARG_POOL[idx % len(ARG_POOL)]], kwargs={},
             )
             env.msg_labels[idx] = dict(labels)
             data = broker.formatter.dumps(tm).message
@@ -503,6 +515,7 @@ def run(scn: Dict[str, Any]) -> List[Dict[str, Any]]:
     cfg = normalize(scn["cfg"])
     loop = VLoop()
     env = Env(loop, cfg)
+    loop.on_crash = lambda exc: env.rec("loop_crash", s=type(exc).__name__)
     try:
         broker = ScriptedBroker(env)
         broker.result_backend = RecordingBackend(env)
